@@ -141,6 +141,10 @@ where
     dropped_iter_before: bool,
     max_values: i64,
     inserts_after_clear: u32,
+    /// whether the inserts that follow the last clear are each followed by a point-query sweep (the
+    /// clear operation's second argument: a query may repair what the clear left behind, so only some
+    /// cases look that early)
+    sweep_after_clear: bool,
     tmax: i64,
 }
 
@@ -236,6 +240,7 @@ where
         dropped_iter_before: false,
         max_values: case.get_i64("max_values", i64::MAX),
         inserts_after_clear: 0,
+        sweep_after_clear: false,
         tmax: case.get_i64("Tmax", i64::MAX),
     };
     if r.lay.shift > 0 {
@@ -373,7 +378,7 @@ where
                 // C12: after each of the first inserts that follow a clear, one point query per bucket
                 // (every place is a leftover candidate; a point query reaches a stale copy below the
                 // value's top place, which a wider query would attribute to the top place and skip)
-                if matches!(step, Step::Continue) && self.rc.obs(12) && self.twin.is_some() && self.inserts_after_clear < 3 && self.rc.inject.is_none() && !self.rc.inject_all {
+                if matches!(step, Step::Continue) && self.rc.obs(12) && self.twin.is_some() && self.sweep_after_clear && self.inserts_after_clear < 3 && self.rc.inject.is_none() && !self.rc.inject_all {
                     self.inserts_after_clear += 1;
                     let nb = self.lay.nbuckets();
                     for b in 0..nb {
@@ -448,6 +453,7 @@ where
                 trace!(self, "#{} clear(); clock {} -> {}", i, self.clock, newclock);
                 self.clock = newclock;
                 self.inserts_after_clear = 0;
+                self.sweep_after_clear = op.args[1].rem_euclid(2) == 1;
                 self.model.clear();
                 self.out.class("after_clear");
                 if self.rc.obs(12) {
@@ -565,6 +571,25 @@ where
                 }
             }
             let _ = all_mask;
+            // every other unexpired value must still be stored at places that tile its range: an
+            // insert writes copies of the new value and has no business removing live ones
+            let t = self.clock;
+            let all = self.tree.verif_copies();
+            for m in self.model.iter().filter(|m| m.exp >= t && m.id != id) {
+                let (mb0, mb1) = (self.lay.bucket(m.lo), self.lay.bucket(m.hi));
+                let mut cov = [0u8; 32];
+                for (p, _, v) in all.iter().filter(|(_, _, v)| v.id == m.id) {
+                    let _ = v;
+                    let (l0, l1) = leaves_under(*p);
+                    for b in l0..=l1.min(31) {
+                        cov[b as usize] += 1;
+                    }
+                }
+                if let Some(b) = (0..32u32).find(|b| cov[*b as usize] != (*b >= mb0 && *b <= mb1) as u8) {
+                    self.out.fail(15, "live-value-no-longer-tiled", i, format!("SegExpTree: after insert of value {}, the unexpired value {} (buckets {}..{}, expiration {} >= clock {}) covers bucket {} {} times", id, m.id, mb0, mb1, m.exp, t, b, cov[b as usize]));
+                    return Step::Stop;
+                }
+            }
         }
         Step::Continue
     }
